@@ -63,11 +63,10 @@ TECH = "Coq proof over a protocol automaton (local rules, constants regenerated 
 CLAIMED.update({
     "C01": sim("Theorems (Coq, induction over all admitted traces of any length and any number of instances): elections touch only their own group's key; a Create "
                "succeeds only while no live record exists and an Update only against the key's exact latest revision; a created record names its creator; a "
-               "takeover replaces only a live version that the issuer itself read, with takeover enabled and strictly lower stored priority (history-uniqueness "
-               "invariant). The refresh clause (same owner, same token) and deletion-by-owner are decided by the monitor on every simulated trace, not by a "
-               "theorem; deletion-by-owner is FALSE on the code (known finding D5, replayed from corpus/ on every run).", "5.1 and 11", TECH,
-               extra="Clause 105 (refresh replaces only the refresher's own version with the same token) is not proved: the model admits a late-acknowledgement "
-                     "scenario in which it fails (DESIGN 11.4)."),
+               "takeover replaces only a live version that the issuer itself read, with takeover enabled and strictly lower stored priority; every successful "
+               "refresh replaces a live version written by the same instance with the same id and token (views invariant: every (token, revision) pair an "
+               "instance holds is a version it wrote with that token; history uniqueness). Deletion-by-owner is decided by the monitor only: it is FALSE on the "
+               "code in a narrow window (known finding D5 residual, replayed from corpus/).", "5.1 and 11", TECH),
     "C02": sim("Theorems: a claim is raised only after the claimant's own successful Create/takeover write, a Create succeeds only on a vacant key, and - with a "
                "configuration the regenerated validate_config accepts, refreshes answered within H/2 and the ticker rule - two consecutive refresh applications are "
                "less than TTL apart (the record cannot lapse under a healthy leader). The full statement (at most one claimant, claim backed at every instant) is "
@@ -82,9 +81,10 @@ CLAIMED.update({
                "live record. Every ValidateToken/ValidateTokenOrDemote call of the real library in the simulated traces (tampered, derived, truncated, "
                "case-variant records; racing writes; cancelled contexts) is checked against it, including the fail-safe and demotion clauses.", "5.4 and 11", TECH,
                extra="The verdict model is hand-written (not regenerated); the theorem is about that model."),
-    "C05": sim("Theorems: every acquisition by Create publishes a readable payload naming its issuer with a non-empty token (invariant over all admitted traces). "
-               "Freshness of tokens across terms, constancy within a term and the callback/Token()/Status() clauses are decided by the monitor on every trace "
-               "(rule 2003 states freshness locally; uuid uniqueness is trusted).", "5.5 and 11", TECH),
+    "C05": sim("Theorems: every acquisition by Create publishes a readable payload naming its issuer with a non-empty token, and every successful refresh republishes "
+               "exactly the token and identity of the version it replaces (same theorem as C01's refresh clause). Freshness of tokens across terms and the "
+               "callback/Token()/Status() clauses are decided by the monitor on every trace (rule 2003 states freshness locally; uuid uniqueness is trusted).",
+               "5.5 and 11", TECH),
     "C06": sim("Theorem: for every schedule in which the periodic check fires within the regenerated interval, the acquisition round waits at most the regenerated "
                "maximum jitter and each store call takes at most L, a vacancy is filled within 500 ms + 100 ms + 4L. The monitor measures the bound on every "
                "vacancy of every simulated trace (deletion, expiry after crash/partition, removal; lost/closed/failed watches; transient failures).", "5.6 and 11", TECH),
